@@ -412,3 +412,37 @@ func init() {
 			}},
 	)
 }
+
+// ---------------------------------------------------------------- TransCaller (public API)
+
+func callerOf(flds []trFld) zapcore.EntryCaller {
+	return zapcore.EntryCaller{Defined: *fldOf(flds, "defined").B, File: string(fldOf(flds, "file").bytes()), Line: int(fldOf(flds, "line").int64())}
+}
+
+func genCallerFlds(r *Rand) []trFld {
+	var file []byte
+	for i, k := 0, r.Intn(5); i < k; i++ {
+		if i > 0 || r.Bool() {
+			file = append(file, '/')
+		}
+		for j, m := 0, r.Intn(4); j < m; j++ {
+			file = append(file, byte('a'+r.Intn(3)))
+		}
+	}
+	return []trFld{{"defined", tvBool(r.Chance(5, 6))}, {"file", tvBytes(file)}, {"line", tvInt(int64(r.Intn(100000)))}}
+}
+
+func init() {
+	trFns = append(trFns,
+		trFn{table: "TransCaller", name: "FullPath",
+			gen: func(r *Rand) ([]TV, []trFld) { return nil, genCallerFlds(r) },
+			run: func(_ []TV, flds []trFld) ([]TV, []trFld) {
+				return []TV{tvBytes([]byte(callerOf(flds).FullPath()))}, flds
+			}},
+		trFn{table: "TransCaller", name: "TrimmedPath",
+			gen: func(r *Rand) ([]TV, []trFld) { return nil, genCallerFlds(r) },
+			run: func(_ []TV, flds []trFld) ([]TV, []trFld) {
+				return []TV{tvBytes([]byte(callerOf(flds).TrimmedPath()))}, flds
+			}},
+	)
+}
